@@ -659,11 +659,8 @@ func (p *Parser) parseSelectStatement() (ast.Statement, error) {
 					return nil, p.expectedError("SELECT in derived table")
 				}
 
-				// Consume SELECT token before calling parseSelectStatement
-				p.advance() // Consume SELECT
-
-				// Parse the subquery
-				subquery, err := p.parseSelectStatement()
+				// Parse the subquery (SELECT ..., or WITH ... SELECT ...)
+				subquery, err := p.parseSubquery()
 				if err != nil {
 					return nil, err
 				}
@@ -1080,11 +1077,8 @@ func (p *Parser) parseFromTableReference() (ast.TableReference, error) {
 			return tableRef, p.expectedError("SELECT in derived table")
 		}
 
-		// Consume SELECT token before calling parseSelectStatement
-		p.advance() // Consume SELECT
-
-		// Parse the subquery
-		subquery, err := p.parseSelectStatement()
+		// Parse the subquery (SELECT ..., or WITH ... SELECT ...)
+		subquery, err := p.parseSubquery()
 		if err != nil {
 			return tableRef, err
 		}
